@@ -105,9 +105,29 @@ def is_transparent_fn(f):
         return f.parts[0] in TRANSPARENT_CALLS
     if isinstance(f, H.Closure):
         # |x| Box::new(W(x))  /  |x| W(x) / |x| x.0
-        ev = H.Evaluator.__new__(H.Evaluator)
-        return closure_is_wrapper(f)
+        return closure_is_wrapper(f) or closure_folds_to_wrapper(f)
     return False
+
+
+_FX = [None]
+
+
+def closure_folds_to_wrapper(c):
+    """the closure applied to a fresh value folds (with what it captured: a constructor handed to a helper as `wrap`) to that
+    value under transparent wrappers only"""
+    if _FX[0] is None or len(c.node.get("params") or []) != 1:
+        return False
+    ev = H.Evaluator(_FX[0])
+    ev.inline = lambda p: False
+    mark = H.Sym("param", ("\u2022closure-argument",))
+    try:
+        r = ev.apply_closure(c, [mark])
+    except Exception:
+        return False
+    if ev.lossy or ev.trace and any(not (isinstance(x.parts[0], str) and x.parts[0] in TRANSPARENT_CALLS) for x in ev.trace):
+        return False
+    core, _seen = strip(r)
+    return core is mark or core == mark
 
 
 def closure_is_wrapper(c):
@@ -139,6 +159,40 @@ def closure_is_wrapper(c):
             return inner(e["a"])
         return False
     return inner(node["body"])
+
+
+def _core_has_method(fx, ffi_ty, core_ty, name):
+    rs = fx["temporal_rs"]
+    for f in rs.fns:
+        if f.name == name and f.kind == "AssocFn" and type_seg(f.path) in (ffi_ty, core_ty):
+            return True
+    return False
+
+
+INT_RANGE = {"i8": (-2 ** 7, 2 ** 7 - 1), "u8": (0, 2 ** 8 - 1), "i16": (-2 ** 15, 2 ** 15 - 1), "u16": (0, 2 ** 16 - 1),
+             "i32": (-2 ** 31, 2 ** 31 - 1), "u32": (0, 2 ** 32 - 1), "i64": (-2 ** 63, 2 ** 63 - 1), "u64": (0, 2 ** 64 - 1),
+             "isize": (-2 ** 63, 2 ** 63 - 1), "usize": (0, 2 ** 64 - 1)}
+STD_FIELDLESS = {"core::cmp::Ordering": (-1, 0, 1), "bool": (0, 1)}
+
+
+def injective_enum_cast(fx, src_ty, dst_ty):
+    """`value as dst_ty` of a fieldless enum whose discriminants all fit the target: one integer per variant, nothing lost"""
+    rng = INT_RANGE.get(dst_ty)
+    if rng is None or not isinstance(src_ty, str):
+        return False
+    src = src_ty.lstrip("&").strip()
+    if src in STD_FIELDLESS:
+        ds = STD_FIELDLESS[src]
+    else:
+        adt = None
+        for c in fx.crates.values():
+            adt = adt or c.adts.get(src)
+        if adt is None or adt.get("kind") != "enum" or any(v.get("fields") for v in adt["variants"]):
+            return False
+        ds = [v.get("discr") for v in adt["variants"]]
+        if any(not isinstance(d, int) for d in ds):
+            return False
+    return len(set(ds)) == len(ds) and all(rng[0] <= d <= rng[1] for d in ds)
 
 
 def is_core_path(p):
@@ -200,6 +254,14 @@ def check_bridge(run, fx, ev):
             continue
         expect = RENAMES.get(name, (name,))[0]
         prim = [c for c in core_calls if c.parts[0].rsplit("::", 1)[-1] == expect]
+        if not prim and len(core_calls) == 1 and not _core_has_method(fx, type_seg(f.path), type_seg(core_calls[0].parts[0]), expect):
+            # the core type has no method of this name at all: the FFI method does not NAME a core method (an export added
+            # under a name of its own); which method it should forward to is not decidable, how it forwards is
+            prim = core_calls
+            run.undecided.append({"rule": rule, "key": key + "/named-method", "why": "core type %s has no method `%s`; the "
+                                  "forwarding to `%s` is checked, the choice of method is not" %
+                                  (type_seg(core_calls[0].parts[0]), expect, short(core_calls[0].parts[0]))})
+            expect = core_calls[0].parts[0].rsplit("::", 1)[-1]
         if len(prim) != 1:
             run.bad(rule, key, "FFI method `%s` must call core `%s` exactly once; core calls: %s" %
                     (name, expect, [short(c.parts[0]) for c in core_calls]), f.loc, detail=show(res))
@@ -312,6 +374,10 @@ def check_shims(run, fx, ev):
         core, _ = strip(res)
         target = fx.fn(b.parts[0])
         returns_unit = target is not None and target.ret == "()"
+        if isinstance(core, H.Sym) and core.what == "cast" and target is not None and \
+                injective_enum_cast(fx, target.ret, str(core.parts[1])):
+            # a fieldless enum handed to C as its discriminant (core::cmp::Ordering -> int8_t)
+            core, _ = strip(core.parts[0])
         if core is not b and not returns_unit:
             run.bad(rule, key, "bridge result does not reach the return value: %s" % show(res)[:160], f.loc)
             continue
@@ -728,6 +794,9 @@ def main(tier):
     fx = Facts("full")
     run.tree_hash = fx.hash
     run.configs.append({"config": "full", "crates": fx.summary()})
+    if getattr(fx, "moved", None):
+        run.analysed["moved_functions"] = dict(sorted(fx.moved.items()))
+    _FX[0] = fx
     run_checks(run, fx)
     run.assumptions += ["Into/From impls of diplomat_runtime (DiplomatOption, DiplomatResult) are value-preserving",
                         "rustc's type checker resolved callees as exported (tfacts reads typeck results)"]
